@@ -587,7 +587,7 @@ func c07ContentFinalBeforeWrite(c *Ctx) {
 			c.check(bad == "", "content-final", qname(fn)+" → writeBlockContent", p.Pos(w.Pos()), "no call that can modify the block runs after it was serialised", "the block is modified by "+bad+" after writeBlockContent encoded it: what is stored differs from the block the node finalised (e.g. the stored header lacks the signatures)")
 		}
 	}
-	if n < 4 {
+	if n < 2 {
 		c.und("content-final", "statebackend closures", "", fmt.Sprintf("only %d writeBlockContent sites found", n))
 	}
 }
